@@ -91,10 +91,12 @@ def check_two_runs(spec: dict) -> core.CaseResult:
     findings = oracles.c01_return_value(spec, obs, ex1)
     if obs.second is not None and obs.outcome == 'return':
         ex2 = oracles.expect_second(spec, obs, ex1, second)
-        for f in oracles.c01_return_value(spec, obs.second, ex2):
+        spec2 = spec if second.get('requested') is None else {**spec, 'requested': [{'ref': i, 'fresh': False} for i in second['requested']]}
+        for f in oracles.c01_return_value(spec2, obs.second, ex2):
             findings.append(core.Finding(f.signature.replace('C01:', 'C01:second-run:'), f.detail))
     f = specs.features(spec)
-    labels = [f'backend={spec["lab"]["backend"]}', f'second:same_lab={second.get("same_lab")}', f'second:bust={second.get("bust")}', f'second:uncached_between={bool(second.get("uncache"))}']
+    labels = [f'backend={spec["lab"]["backend"]}', f'second:same_lab={second.get("same_lab")}', f'second:bust={second.get("bust")}', f'second:uncached_between={bool(second.get("uncache"))}',
+              f'second:other_request_list={second.get("requested") is not None}']
     return dagprop.result(obs, findings, f['n_closure'] >= 2, labels, prop='C01')
 
 
@@ -128,10 +130,17 @@ def run_job(rec: core.Recorder, job: dict, seed: int) -> None:
     if eng.startswith('two-runs:'):
         from hypothesis import strategies as st
         b = eng.split(':')[1]
-        strat = st.builds(lambda sp, same, bust, unc: {**sp, 'second': {'same_lab': same, 'bust': bust,
-                                                                      'uncache': sorted({i for i in unc if i < len(sp['nodes'])})}},
-                          specs.dag_spec(max_nodes=7, backends=(b,), dup_bias=(seed % 2 == 0), storages=('local', 'local', 'none', 'fsspec_local')), st.booleans(), st.booleans(),
-                          st.one_of(st.just([]), st.lists(st.integers(0, 6), max_size=4)))
+        def mk(sp, same, bust, unc, req2):
+            second = {'same_lab': same, 'bust': bust, 'uncache': sorted({i for i in unc if i < len(sp['nodes'])})}
+            # the second call may request OTHER tasks than the first (e.g. only a dependent of a task that was requested before and
+            # is now re-executed as a mere dependency): what the first call left on the task objects must not be read then
+            req2 = list(dict.fromkeys(i for i in (req2 or []) if i < len(sp['nodes'])))
+            if req2:
+                second['requested'] = req2
+            return {**sp, 'second': second}
+        strat = st.builds(mk, specs.dag_spec(max_nodes=7, backends=(b,), dup_bias=(seed % 2 == 0), storages=('local', 'local', 'none', 'fsspec_local')),
+                          st.booleans(), st.booleans(), st.one_of(st.just([]), st.lists(st.integers(0, 6), max_size=4)),
+                          st.one_of(st.none(), st.lists(st.integers(0, 6), min_size=1, max_size=3)))
         core.run_hypothesis(rec, eng, strat, check_two_runs, max_examples=job['n'], seed=seed, shrink=(b != 'fork' or rec.tier == 'thorough'))
         return
     if eng == 'fork+gated+displays':
